@@ -383,6 +383,27 @@ def generator_scenario(rec, mode):
 
     body.__name__ = f"FlakyGen{n}"
     G = h.generator(body)
+    if mode == "unnameable":
+        # the body succeeds, but the parameters cannot be turned into a module name (an Instance-valued field)
+        from typing import Any
+
+        @h.paramclass
+        class Q:
+            x = h.Param(dtype=Any, desc="anything", default=None)
+
+        def okbody(params: Q) -> h.Module:
+            return h.Module()
+
+        okbody.__name__ = f"Unnameable{n}"
+        GQ = h.generator(okbody)
+        bad = h.Instance(of=h.R(r=1))
+        scenario = {"source": "generator-naming", "where": mode, "body_runs": [0], "body_runs_expected": None}
+        rec.case(key=jhash({"source": "generator-naming", "n": n % 3}), nontrivial=True, sample=None)
+        log = Log()
+        log.call("generator-first", "G", True, False, lambda: GQ(x=bad) and None)
+        log.call("generator-retry", "G", True, False, lambda: GQ(x=bad) and None)
+        check_trace(rec, log, {}, scenario)
+        return
     scenario = {"source": "generator-body", "where": mode, "body_runs": runs, "body_runs_expected": 2}
     rec.case(key=jhash({"source": "generator-body", "where": mode, "n": n % 3}), nontrivial=True, sample={"source": "generator-body", "mode": mode} if n % 40 == 0 else None)
     log = Log()
@@ -490,7 +511,7 @@ def run(ctx, rec):
                 work.append(("bomb", d, pos, t, variant))
         for fault in real_faults():
             work.append(("real", d, fault, variant))
-    for mode in ("direct", "nested"):
+    for mode in ("direct", "nested", "unnameable"):
         for _ in range(3):
             work.append(("gen", mode))
     fps = failpoint_lines()
